@@ -40,3 +40,103 @@ HEADER_ARCH = {0: "I386", 4: "MIPS32"}
 HEADER_TAG_FLAGS = {0: "Required", 1: "Optional"}           # bit 0 of `flags`: optional
 RELOCATABLE_PREFERENCE = {0: "None", 1: "Low", 2: "High"}
 CONSOLE_FLAGS = {1: "ConsoleRequired", 2: "EgaTextSupported"}  # bit 0 / bit 1 of console_flags
+
+# ---------------------------------------------------------------------------------------------
+# Boot-information tags (multiboot2.h `struct multiboot_tag_*`).  Offsets from the tag start,
+# widths in bytes.  `fixed` = size of the fixed part; `var` = element size of the variable part
+# (None for fixed-size kinds, whose `fixed` is also the exact value of the size field).
+# `ty` = name of the public type in crate `multiboot2` that models the kind (API table).
+# Where the prose of the specification and multiboot2.h disagree (framebuffer `reserved`
+# u16 and palette count u16) the header file - which GRUB implements - is followed.
+MBI_TAGS = {
+    "End":            dict(num=0, ty="EndTag", fixed=8, var=None, fields=[]),
+    "Cmdline":        dict(num=1, ty="CommandLineTag", fixed=8, var=1, fields=[]),
+    "BootLoaderName": dict(num=2, ty="BootLoaderNameTag", fixed=8, var=1, fields=[]),
+    "Module":         dict(num=3, ty="ModuleTag", fixed=16, var=1,
+                           fields=[("mod_start", 8, 4), ("mod_end", 12, 4)]),
+    "BasicMeminfo":   dict(num=4, ty="BasicMemoryInfoTag", fixed=16, var=None,
+                           fields=[("mem_lower", 8, 4), ("mem_upper", 12, 4)]),
+    "Bootdev":        dict(num=5, ty="BootdevTag", fixed=20, var=None,
+                           fields=[("biosdev", 8, 4), ("slice", 12, 4), ("part", 16, 4)]),
+    "Mmap":           dict(num=6, ty="MemoryMapTag", fixed=16, var=24,
+                           fields=[("entry_size", 8, 4), ("entry_version", 12, 4)]),
+    "Vbe":            dict(num=7, ty="VBEInfoTag", fixed=784, var=None,
+                           fields=[("vbe_mode", 8, 2), ("vbe_interface_seg", 10, 2), ("vbe_interface_off", 12, 2),
+                                   ("vbe_interface_len", 14, 2), ("vbe_control_info", 16, 512), ("vbe_mode_info", 528, 256)]),
+    "Framebuffer":    dict(num=8, ty="FramebufferTag", fixed=32, var=1,
+                           fields=[("framebuffer_addr", 8, 8), ("framebuffer_pitch", 16, 4), ("framebuffer_width", 20, 4),
+                                   ("framebuffer_height", 24, 4), ("framebuffer_bpp", 28, 1), ("framebuffer_type", 29, 1),
+                                   ("reserved", 30, 2)]),
+    "ElfSections":    dict(num=9, ty="ElfSectionsTag", fixed=20, var=1,
+                           fields=[("num", 8, 4), ("entsize", 12, 4), ("shndx", 16, 4)]),
+    "Apm":            dict(num=10, ty="ApmTag", fixed=28, var=None,
+                           fields=[("version", 8, 2), ("cseg", 10, 2), ("offset", 12, 4), ("cseg_16", 16, 2), ("dseg", 18, 2),
+                                   ("flags", 20, 2), ("cseg_len", 22, 2), ("cseg_16_len", 24, 2), ("dseg_len", 26, 2)]),
+    "Efi32":          dict(num=11, ty="EFISdt32Tag", fixed=12, var=None, fields=[("pointer", 8, 4)]),
+    "Efi64":          dict(num=12, ty="EFISdt64Tag", fixed=16, var=None, fields=[("pointer", 8, 8)]),
+    "Smbios":         dict(num=13, ty="SmbiosTag", fixed=16, var=1,
+                           fields=[("major", 8, 1), ("minor", 9, 1), ("reserved", 10, 6)]),
+    "AcpiV1":         dict(num=14, ty="RsdpV1Tag", fixed=28, var=None,
+                           fields=[("signature", 8, 8), ("checksum", 16, 1), ("oemid", 17, 6), ("revision", 23, 1),
+                                   ("rsdt_address", 24, 4)]),
+    "AcpiV2":         dict(num=15, ty="RsdpV2Tag", fixed=44, var=None,
+                           fields=[("signature", 8, 8), ("checksum", 16, 1), ("oemid", 17, 6), ("revision", 23, 1),
+                                   ("rsdt_address", 24, 4), ("length", 28, 4), ("xsdt_address", 32, 8),
+                                   ("extended_checksum", 40, 1), ("reserved", 41, 3)]),
+    "Network":        dict(num=16, ty="NetworkTag", fixed=8, var=1, fields=[]),
+    "EfiMmap":        dict(num=17, ty="EFIMemoryMapTag", fixed=16, var=1,
+                           fields=[("descr_size", 8, 4), ("descr_vers", 12, 4)]),
+    "EfiBs":          dict(num=18, ty="EFIBootServicesNotExitedTag", fixed=8, var=None, fields=[]),
+    "Efi32Ih":        dict(num=19, ty="EFIImageHandle32Tag", fixed=12, var=None, fields=[("pointer", 8, 4)]),
+    "Efi64Ih":        dict(num=20, ty="EFIImageHandle64Tag", fixed=16, var=None, fields=[("pointer", 8, 8)]),
+    "LoadBaseAddr":   dict(num=21, ty="ImageLoadPhysAddrTag", fixed=12, var=None, fields=[("load_base_addr", 8, 4)]),
+}
+MBI_TAG_HEADER = [("type", 0, 4), ("size", 4, 4)]
+MBI_HEADER = [("total_size", 0, 4), ("reserved", 4, 4)]
+
+# struct multiboot_mmap_entry (24 bytes, entry_version 0)
+MMAP_ENTRY = dict(ty="MemoryArea", size=24, fields=[("addr", 0, 8), ("len", 8, 8), ("type", 16, 4), ("zero", 20, 4)])
+# struct multiboot_color (3 bytes) and the direct-RGB descriptor (6 bytes)
+FB_COLOR = dict(ty="FramebufferColor", size=3, fields=[("red", 0, 1), ("green", 1, 1), ("blue", 2, 1)])
+FB_PALETTE_COUNT_WIDTH = 2
+FB_RGB_FIELDS = ["red_field_position", "red_mask_size", "green_field_position", "green_mask_size",
+                 "blue_field_position", "blue_mask_size"]
+
+# UEFI EFI_MEMORY_DESCRIPTOR, version 1 (40 bytes incl. padding after Type)
+EFI_MEMORY_DESCRIPTOR = dict(size=40, align=8, version=1,
+                             fields=[("Type", 0, 4), ("PhysicalStart", 8, 8), ("VirtualStart", 16, 8),
+                                     ("NumberOfPages", 24, 8), ("Attribute", 32, 8)])
+
+# ELF gABI section headers
+ELF32_SHDR = dict(size=40, fields=[("sh_name", 0, 4), ("sh_type", 4, 4), ("sh_flags", 8, 4), ("sh_addr", 12, 4),
+                                   ("sh_offset", 16, 4), ("sh_size", 20, 4), ("sh_link", 24, 4), ("sh_info", 28, 4),
+                                   ("sh_addralign", 32, 4), ("sh_entsize", 36, 4)])
+ELF64_SHDR = dict(size=64, fields=[("sh_name", 0, 4), ("sh_type", 4, 4), ("sh_flags", 8, 8), ("sh_addr", 16, 8),
+                                   ("sh_offset", 24, 8), ("sh_size", 32, 8), ("sh_link", 40, 4), ("sh_info", 44, 4),
+                                   ("sh_addralign", 48, 8), ("sh_entsize", 56, 8)])
+
+# ACPI RSDP
+RSDP_V1_LEN = 20
+RSDP_V2_LEN = 36
+
+# ---------------------------------------------------------------------------------------------
+# Multiboot2 header (multiboot2.h `struct multiboot_header*`)
+MB2_HEADER = dict(ty="Multiboot2BasicHeader", size=16,
+                  fields=[("magic", 0, 4), ("architecture", 4, 4), ("header_length", 8, 4), ("checksum", 12, 4)])
+HEADER_TAG_HEADER = [("type", 0, 2), ("flags", 2, 2), ("size", 4, 4)]
+HEADER_TAGS = {
+    "End":                dict(num=0, ty="EndHeaderTag", fixed=8, var=None, fields=[]),
+    "InformationRequest": dict(num=1, ty="InformationRequestHeaderTag", fixed=8, var=4, fields=[]),
+    "Address":            dict(num=2, ty="AddressHeaderTag", fixed=24, var=None,
+                               fields=[("header_addr", 8, 4), ("load_addr", 12, 4), ("load_end_addr", 16, 4), ("bss_end_addr", 20, 4)]),
+    "EntryAddress":       dict(num=3, ty="EntryAddressHeaderTag", fixed=12, var=None, fields=[("entry_addr", 8, 4)]),
+    "ConsoleFlags":       dict(num=4, ty="ConsoleHeaderTag", fixed=12, var=None, fields=[("console_flags", 8, 4)]),
+    "Framebuffer":        dict(num=5, ty="FramebufferHeaderTag", fixed=20, var=None,
+                               fields=[("width", 8, 4), ("height", 12, 4), ("depth", 16, 4)]),
+    "ModuleAlign":        dict(num=6, ty="ModuleAlignHeaderTag", fixed=8, var=None, fields=[]),
+    "EfiBS":              dict(num=7, ty="EfiBootServiceHeaderTag", fixed=8, var=None, fields=[]),
+    "EntryAddressEFI32":  dict(num=8, ty="EntryEfi32HeaderTag", fixed=12, var=None, fields=[("entry_addr", 8, 4)]),
+    "EntryAddressEFI64":  dict(num=9, ty="EntryEfi64HeaderTag", fixed=12, var=None, fields=[("entry_addr", 8, 4)]),
+    "Relocatable":        dict(num=10, ty="RelocatableHeaderTag", fixed=24, var=None,
+                               fields=[("min_addr", 8, 4), ("max_addr", 12, 4), ("align", 16, 4), ("preference", 20, 4)]),
+}
